@@ -164,3 +164,43 @@ func Harness_C06_offline_set_sub() {
 	verifAssert(owners == 1, "exactly-one-stored-owner")
 	verifReach("end")
 }
+
+// Creation of a group topic ({sub topic="new"}) through the real initTopicNewGrp with arbitrary default-access
+// and own-mode texts: the creator is the one effective owner, and the topic's default access - what every later
+// subscriber is granted - never contains ownership, whatever mix of valid and invalid texts was sent.
+func Harness_C06_create_group() {
+	verifNewStore()
+	verifInitGlobals()
+	creator := types.Uid(5)
+	name := "grpNEWTOPIC001"
+	t := &Topic{name: name, xoriginal: "new", perUser: map[types.Uid]perUserData{}, sessions: map[*Session]perSessionData{}}
+	pool := []string{"", "JRWPS", "JRWPSO", "O", "xyz", "N"}
+	defacs := &MsgDefaultAcsMode{Auth: pool[verifChoose("auth", len(pool))], Anon: pool[verifChoose("anon", len(pool))]}
+	set := &MsgSetQuery{}
+	if verifNondetBool("withDefacs") {
+		set.Desc = &MsgSetDesc{DefaultAcs: defacs}
+	}
+	if m := []string{"", "JRWPASDO", "N", "RW", "xyz", "JRWPASD"}[verifChoose("ownMode", 6)]; m != "" {
+		set.Sub = &MsgSetSub{Mode: m}
+	}
+	sreg := &ClientComMessage{Id: "r1", AsUser: creator.UserId(), AuthLvl: int(auth.LevelAuth), Original: "new", RcptTo: name,
+		Timestamp: types.TimeNow(), init: true, Sub: &MsgClientSub{Id: "r1", Topic: "new", Set: set}}
+	err := initTopicNewGrp(t, sreg, verifNondetBool("isChan"))
+	if err == nil {
+		verifAssert(!t.accessAuth.IsOwner() && !t.accessAnon.IsOwner(), "default-access-never-grants-ownership")
+		verifAssert(t.accessAuth&^types.ModeBitmask == 0 && t.accessAnon&^types.ModeBitmask == 0, "default-access-is-a-valid-mode")
+		verifAssert(t.owner == creator && len(t.perUser) == 1, "creator-is-the-only-member-and-the-recorded-owner")
+		pud := t.perUser[creator]
+		verifAssert((pud.modeWant & pud.modeGiven).IsOwner() && (pud.modeWant & pud.modeGiven).IsJoiner(), "creator-is-the-effective-owner")
+		st := verifStore.topics[name]
+		verifAssert(st != nil, "topic-row-created")
+		if st != nil {
+			verifAssert(st.Access.Auth == t.accessAuth && st.Access.Anon == t.accessAnon, "stored-default-access-equals-live")
+		}
+		sub := verifStore.subs[verifSubKey(name, creator)]
+		verifAssert(sub != nil && sub.ModeWant == pud.modeWant && sub.ModeGiven == pud.modeGiven, "stored-owner-subscription-equals-live")
+	} else {
+		verifAssert(verifStore.topics[name] == nil, "refused-creation-stores-nothing")
+	}
+	verifReach("end")
+}
